@@ -61,6 +61,10 @@ func (w *winWorld) csEpoch(t time.Time) drkey.Epoch {
 	if err != nil {
 		infra("secret value: %v", err)
 	}
+	if !inEpoch(sv.Epoch, t) || sv.Epoch.NotAfter.Sub(sv.Epoch.NotBefore) != w.d {
+		w.r.Fail("c39-sv-epoch", "sv-epoch-not-containing", "control service: secret value at %s has epoch [%d,%d) (configured length %v, instant %d.%09d)",
+			w.rel(t), sv.Epoch.NotBefore.Unix(), sv.Epoch.NotAfter.Unix(), w.d, t.Unix(), t.Nanosecond())
+	}
 	return sv.Epoch
 }
 
@@ -107,8 +111,11 @@ func (w *winWorld) packet(i int) {
 	horizon := now0.Add(w.d/2 + 2*w.aw + 2*docGrace + time.Second)
 	cur := w.csEpoch(horizon)
 	b := cur.NotAfter // boundary between epoch E (ending at b) and E+1
+	if r.Failed() {
+		return
+	}
 	if !b.After(horizon) {
-		infra("control service epoch [%v,%v) does not contain %v", cur.NotBefore, cur.NotAfter, horizon)
+		b = b.Add(w.d) // horizon exactly on a boundary
 	}
 	ns := time.Nanosecond
 	// sender clock relative to the boundary
@@ -160,6 +167,9 @@ func (w *winWorld) packet(i int) {
 	default:
 		modeName = "forged"
 		honest = false
+	}
+	if r.Failed() {
+		return
 	}
 	var rel uint64
 	if honest {
